@@ -12,22 +12,26 @@ structure InvF (s : State) : Prop where
     s.st (.sub i) = .running ∨ (s.st (.sub i)).isStopping = true ∨ (s.st (.sub i)).ended = true
   rootSt : ∀ r, s.st (.root r) ≠ .absent
   scRun : (s.st (.root .startupCleanup)).ended = false → s.st (.root .startupCleanup) = .running
+  stoppingKind : ∀ r, (s.st (.root r)).isStopping = true →
+    r.kind = .killer ∨ r.kind = .observer ∨ r.kind = .orchestrator
 
 theorem InvF.init : InvF init := by
   constructor <;> simp [Kopf.C20.init, initSt, Root.guarded, Root.kind]
   · intro r; split <;> simp_all
   · intro r; split <;> simp
+  · intro r; cases r <;> simp
 
 set_option maxHeartbeats 4000000 in
 theorem InvF.preserved {cfg : Cfg} {s s' : State} {l : Label} (hI : InvF s)
     (h : step cfg s l = some s') : InvF s' := by
-  obtain ⟨h1, h2, h3, h4⟩ := hI
+  obtain ⟨h1, h2, h3, h4, h5⟩ := hI
+  have hes : ∀ t : TS, t.ended = true → t.isStopping = false := by intro t; cases t <;> simp
   cases l <;> simp only [step] at h
   all_goals (repeat' (split at h))
   all_goals (first | (cases h; done) | skip)
   all_goals (cases h)
-  all_goals (refine ⟨?_, ?_, ?_, ?_⟩)
-  all_goals (first | exact h1 | exact h2 | exact h3 | exact h4 | skip)
+  all_goals (refine ⟨?_, ?_, ?_, ?_, ?_⟩)
+  all_goals (first | exact h1 | exact h2 | exact h3 | exact h4 | exact h5 | skip)
   all_goals (try simp only [kind_orchestrator_iff, kind_killer_iff, kind_flagChecker_iff, kind_ultimate_iff,
     kind_startupCleanup_iff, kind_coreWatch_iff] at *)
   all_goals (try subst_vars)
